@@ -613,7 +613,7 @@ Definition reader_tool (v : variant) (l : list rd_step) : prog Z :=
 
 (* ---------------------------------------------------------------- running *)
 Definition run_tool (p : prog Z) (o : nat -> bool) : Z * list ev :=
-  let (code, s) := run p o st0 in (code, rev (tr s)).
+  let (code, s) := run p o st0 in (code, rev_append (tr s) []).
 
 (* the abstract output object after a run: the successful output calls in order *)
 Definition is_out_effect (e : ev) : bool :=
